@@ -213,7 +213,25 @@ def session(lines, key, new, path, consumer, observe=True):
         lines.append(f"s {key}.{i} end {consumer[0]} {consumer[1]}")
 
 
-def make_script(vs, r, probes_model, rng, level="std", str_cap=48, pairs_cap=36):
+def truncation_probes(reals, r, p, cap=6):
+    """try_from arguments d +/- 2^k (k = 8, 16, 32, 64 below the repr width): values that a truncating cast or a
+    comparison in a narrower type would confuse with the discriminant d"""
+    L, seen = [], set()
+    picks = sorted(set([reals[0], reals[-1]] + reals[:cap]))
+    for d in picks:
+        for k in (8, 16, 32, 64):
+            if k >= prim.bits_of(r):
+                continue
+            for x in (d + (1 << k), d - (1 << k)):
+                if prim.tmin(r) <= x <= prim.tmax(r) and x not in reals and x not in seen:
+                    seen.add(x)
+                    m = p.to_model(x)
+                    for f in ("try_from", "try_from_t"):
+                        L.append(f"s {f}:t{k}:{p.to_model(d)}:{'+' if x > d else '-'} call {f} {p.bits(x)}")
+    return L
+
+
+def make_script(vs, r, probes_model, rng, level="std", str_cap=48, pairs_cap=36, calls=True):
     """vs: variants (with real); probes_model: try_from arguments in model coordinates.
     level: "full" = every covering path of the iterator graph, "std" = a seeded sample,
            "calls" = pure calls only"""
@@ -224,7 +242,7 @@ def make_script(vs, r, probes_model, rng, level="std", str_cap=48, pairs_cap=36)
     reals = sorted(model)
     n = len(reals)
     L = []
-    for m in probes_model:
+    for m in (probes_model if calls else []):
         try:
             x = p.to_real(m)
         except ValueError:
@@ -232,13 +250,16 @@ def make_script(vs, r, probes_model, rng, level="std", str_cap=48, pairs_cap=36)
             x = next(fx for fx in p.far_reals() if p.to_model(fx) == m)
         for f in ("try_from", "try_from_t"):
             L.append(f"s {f}:{m} call {f} {bits(x)}")
-    for x in reals:
+    if calls:
+        L += truncation_probes(reals, r, p)
+    for x in (reals if calls else []):
         for f in ("into", "into_t", "as_str", "display", "debug", "into_str", "next", "next_back"):
             L.append(f"s {f}:{model[x]} call {f} {bits(x)}")
-    L.append("s min call min")
-    L.append("s max call max")
-    L.append("s zip call zip")
-    for s in string_probes(vs, rng, str_cap):
+    if calls:
+        L.append("s min call min")
+        L.append("s max call max")
+        L.append("s zip call zip")
+    for s in (string_probes(vs, rng, str_cap) if calls else []):
         cp = " ".join(str(ord(c)) for c in s)
         for f in ("from_str", "from_str_t"):
             L.append(f"s {f}:{h(s)} call {f} {cp}".rstrip() if cp else f"s {f}:{h(s)} call {f}")
@@ -302,10 +323,14 @@ def make_script(vs, r, probes_model, rng, level="std", str_cap=48, pairs_cap=36)
                     k = rng.choice([0, 1, 2, rng.randint(0, max(1, m // 4)), m - 1, m, stimuli.BIG])
                     path.append((rng.choice(["nth", "nth_back"]), max(0, k)))
             return path
+        # huge enums: consuming operations whose result stays small
+        big = n > 5000
+        cons_for = (lambda j: [("count", 0), ("last", 0), ("skip", n - 3), ("rev_skip", n - 2), ("step_by", n // 3 + 1), ("take", 3)][j % 6]) if big \
+            else (lambda j: CONSUMERS[j % len(CONSUMERS)])
         for src in ("iter", "names"):
             for j in range(6 if level != "full" else 20):
                 path = rand_path(rng.randint(5, 60), n)
-                session(L, f"{src}:r{j}", src, path, CONSUMERS[j % len(CONSUMERS)])
+                session(L, f"{src}:r{j}", src, path, cons_for(j))
         for j in range(12 if level != "full" else 60):
             a, b = rng.choice(reals), rng.choice(reals)
             if j % 4 == 0:
@@ -314,7 +339,7 @@ def make_script(vs, r, probes_model, rng, level="std", str_cap=48, pairs_cap=36)
                 b = a
             m = abs(reals.index(b) - reals.index(a)) + 1
             session(L, f"range:{model[a]}:{model[b]}:r{j}", f"range {bits(a)} {bits(b)}",
-                    rand_path(rng.randint(3, 30), m), CONSUMERS[j % len(CONSUMERS)])
+                    rand_path(rng.randint(3, 30), m), cons_for(j) if big and m > 5000 else (("count", 0) if big else CONSUMERS[j % len(CONSUMERS)]))
     return L
 
 
@@ -396,18 +421,19 @@ class Plan:
                 self.add_group("C09", cases, "full_paths")
 
     # -- mini corpus: every unsafe site / iterator representation once, small shapes
-    def mini(self):
+    def mini(self, decls=None, level="light", str_cap=12, pairs_cap=12, kappas=None):
         rng = self.rng
-        decls = [("i8", [-128, -127, -3, -1, 0, 127]), ("u8", [0, 1, 2, 3]), ("i16", [-2, -1, 0, 1]),
-                 ("u64", [5, 7, 8, 9223372036854775807]), ("i8", [7])]
+        decls = decls or [("i8", [-128, -127, -3, -1, 0, 127]), ("u8", [0, 1, 2, 3]), ("i16", [-2, -1, 0, 1]),
+                          ("u64", [5, 7, 8, 9223372036854775807]), ("i8", [7])]
         for r, reals in decls:
             gapless = runs_of(reals) == 1
             vs = decorate(reals, r, rng, "renames", "shuffle", "dec")
             p = prim.Proj(r)
             probes = sorted({p.to_model(x + d) for x in reals for d in (-1, 0, 1) if prim.tmin(r) <= x + d <= prim.tmax(r)}
                             | {p.model_tmin(), p.model_tmax()})
-            script = make_script(vs, r, probes, rng, level="light", str_cap=12, pairs_cap=12)
-            cases = [self.new_case(r, vs, cfg, script, f"mini:{lab}") for lab, cfg in kappa_list(gapless)]
+            script = make_script(vs, r, probes, rng, level=level, str_cap=str_cap, pairs_cap=pairs_cap)
+            cases = [self.new_case(r, vs, cfg, script, f"mini:{lab}") for lab, cfg in kappa_list(gapless)
+                     if kappas is None or lab in kappas]
             self.add_group("C09", cases, "mini")
 
     # -- B: configuration matrix on representative declarations (C09)
@@ -549,6 +575,29 @@ class Plan:
                 self.add_group("C15", cases, "renamed")
 
     # -- F: large enums, random histories
+    def large_fixed(self, shapes):
+        """shapes: (repr, sorted reals): enums whose table indices exceed the signed half of the repr, full 8-bit types, ..."""
+        rng = self.rng
+        for r, reals in shapes:
+            vs = decorate(reals, r, rng, "ident", rng.choice(["asc", "shuffle"]), "dec")
+            for v in vs:
+                if rng.random() < 0.1:
+                    v["rename"] = "r" + v["ident"]
+            p = prim.Proj(r)
+            pr = {p.model_tmin(), p.model_tmax()}
+            for x in rng.sample(reals, min(30, len(reals))) + [reals[0], reals[-1]]:
+                for d in (-1, 0, 1):
+                    if prim.tmin(r) <= x + d <= prim.tmax(r):
+                        pr.add(p.to_model(x + d))
+            bysort = sorted(vs, key=lambda v: v["real"])
+            sub = bysort[:4] + bysort[-4:] + bysort[126:131] + bysort[254:258] + bysort[32766:32770] + rng.sample(vs, min(16, len(vs)))
+            sub = list({v["ident"]: v for v in sub}.values())
+            script = make_script_large(vs, sub, r, sorted(pr), rng)
+            gapless = runs_of(reals) == 1
+            ks = kappa_list(gapless)
+            cases = [self.new_case(r, vs, cfg, script, f"large{len(reals)}:{lab}") for lab, cfg in (ks[:3] if len(reals) < 1000 else ks[1:3])]
+            self.add_group("C09", cases, "large")
+
     def large(self, sizes):
         rng = self.rng
         for n in sizes:
@@ -582,7 +631,9 @@ class Plan:
                     if prim.tmin(r) <= x + d <= prim.tmax(r):
                         pr.add(p.to_model(x + d))
             pr |= {p.model_tmin(), p.model_tmax()}
-            sub = rng.sample(vs, min(30, len(vs)))
+            bysort = sorted(vs, key=lambda v: v["real"])
+            sub = bysort[:4] + bysort[-4:] + bysort[126:130] + bysort[254:258] + rng.sample(vs, min(20, len(vs)))
+            sub = list({v["ident"]: v for v in sub}.values())
             script = make_script_large(vs, sub, r, sorted(pr), rng)
             gapless = runs_of(reals) == 1
             cases = [self.new_case(r, vs, cfg, script, f"large{len(reals)}:{lab}") for lab, cfg in kappa_list(gapless)[:3]]
@@ -600,6 +651,7 @@ def make_script_large(vs, sub, r, probes_model, rng):
             x = next(fx for fx in p.far_reals() if p.to_model(fx) == m)
         for f in ("try_from", "try_from_t"):
             L.append(f"s {f}:{m} call {f} {p.bits(x)}")
+    L += truncation_probes(sorted(v["real"] for v in vs), r, p)
     for v in sub:
         m = p.to_model(v["real"])
         for f in ("into", "into_t", "as_str", "display", "debug", "into_str", "next", "next_back"):
@@ -609,9 +661,8 @@ def make_script_large(vs, sub, r, probes_model, rng):
             cp = " ".join(str(ord(c)) for c in t)
             for f in ("from_str", "from_str_t"):
                 L.append(f"s {f}:{h(t)} call {f} {cp}".rstrip())
-    L += ["s min call min", "s max call max", "s zip call zip"]
-    full = make_script(vs, r, [], rng, level="std")
-    L += [x for x in full if " new " in x or " op " in x or " end " in x]
+    L += ["s min call min", "s max call max"] + (["s zip call zip"] if len(vs) <= 5000 else [])
+    L += make_script(vs, r, [], rng, level="std", calls=False)
     return L
 
 
@@ -621,7 +672,11 @@ def make_script_large(vs, sub, r, probes_model, rng):
 def build_plan(tier, seed):
     pl = Plan(tier, seed)
     rot = [r for r in prim.REPRS if r not in QUICK_REPRS_FIXED]
-    if tier == "mini":
+    if tier == "miri":
+        # one case per unsafe site family, executed under Miri (C02): gapless and with holes, runs touching both type limits
+        pl.mini(decls=[("i8", [-128, -127, -3, -1, 127]), ("u8", [0, 1, 2, 3])], level="light", str_cap=3, pairs_cap=9,
+                kappas=("match_nab", "table_table", "auto", "range"))
+    elif tier == "mini":
         # a handful of cases covering every unsafe site and iterator representation: used by `setup`
         # (binding self-test) and as the Miri corpus
         pl.mini()
@@ -635,6 +690,9 @@ def build_plan(tier, seed):
         pl.contexts()
         pl.renamed()
         pl.large([60, 300, 1200])
+        pl.large_fixed([("i8", list(range(-128, 128))), ("u8", list(range(0, 256))), ("i8", list(range(-100, 100))),
+                        ("i8", [x for x in range(-128, 128) if x not in (-100, -99, 0, 50, 51, 52, 90, 120, 126)]),
+                        ("u8", [x for x in range(0, 256) if x % 37 != 5])])
     else:
         pl.shapes(prim.REPRS, per_repr_small=None, per_repr_large=400, kappas_per_shape=3)
         pl.full_paths()
@@ -644,6 +702,10 @@ def build_plan(tier, seed):
         pl.contexts()
         pl.renamed()
         pl.large([60, 127, 250, 300, 700, 1200, 2000, 5000])
+        pl.large_fixed([("i8", list(range(-128, 128))), ("u8", list(range(0, 256))), ("i8", list(range(-100, 100))),
+                        ("i8", [x for x in range(-128, 128) if x not in (-100, -99, 0, 50, 51, 52, 90, 120, 126)]),
+                        ("u8", [x for x in range(0, 256) if x % 37 != 5]),
+                        ("i64", list(range(-9223372036854775808, -9223372036854775808 + 3000)))])
     return pl
 
 
@@ -675,7 +737,7 @@ debug = false
 """
 
 
-def write_crate(pl, outdir, cases_per_bin=120):
+def write_crate(pl, outdir, cases_per_bin=120, rustflags=True):
     """returns meta: {"bins": [{"name", "src", "script", "cases":[{id, grp, gprop, label, start, decl, glue}]}]}"""
     import shutil
     here = os.path.dirname(os.path.abspath(__file__))
@@ -688,11 +750,11 @@ def write_crate(pl, outdir, cases_per_bin=120):
     open(os.path.join(outdir, "Cargo.toml"), "w").write(CARGO_TOML % {"rt": rt, "repo": REPO})
     shutil.copy(os.path.join(REPO, "Cargo.lock"), os.path.join(outdir, "Cargo.lock"))
     open(os.path.join(outdir, ".cargo", "config.toml"), "w").write(
-        "[net]\noffline = true\n[build]\nrustflags = [\"--cfg\", \"enum_tools_verif\", \"--check-cfg\", \"cfg(enum_tools_verif)\", \"--cap-lints\", \"allow\"]\n")
+        "[net]\noffline = true\n" + ("[build]\nrustflags = [\"--cfg\", \"enum_tools_verif\", \"--check-cfg\", \"cfg(enum_tools_verif)\", \"--cap-lints\", \"allow\"]\n" if rustflags else ""))
     # bins: groups are never split
     bins, cur, cnt = [], [], 0
     for g in pl.groups:
-        if cur and cnt + len(g["cases"]) > cases_per_bin:
+        if cur and (cnt + len(g["cases"]) > cases_per_bin or cases_per_bin == 0):
             bins.append(cur)
             cur, cnt = [], 0
         cur.append(g)
